@@ -31,7 +31,8 @@ CASES = {'quick': 240, 'thorough': 3600}
 MIN_NONTRIVIAL = {'quick': 120, 'thorough': 2000}
 ANCHORS = ['loki/transformations/extract/outline.py', 'loki/transformations/extract/internal.py',
            'loki/transformations/extract/__init__.py']
-REQUIRED_REACH = ['outline_region', 'outline_pragma_regions', 'extract_internal_procedures', 'transform_module']
+REQUIRED_REACH = ['outline_region', 'outline_pragma_regions', 'extract_internal_procedures', 'extract_internal_procedure',
+                  'transform_module', 'transform_file']
 REQUIRED_COUNTERS = {'program_runs': 200, 'new_routines': 100}
 ASSUMPTIONS = ['gfortran 12 -O0 with run-time checks is the reference semantics',
                'generated programs are well-defined by construction (original must run clean, else discarded)',
